@@ -135,6 +135,10 @@ func main() {
 		{"core/transaction/coinbasetransaction.go", "CoinBaseTransaction.CheckTransactionOutput", "coinbaseCheckTransactionOutput"},
 		{"core/transaction/withdrawfromsidechaintransaction.go", "checkSchnorrWithdrawFromSidechain", "checkSchnorrWithdrawFromSidechain"},
 		{"blockchain/blockvalidator.go", "BlockChain.CheckBlockSanity", "checkBlockSanity"},
+		{"core/transaction/nexttrundposinfotransaction.go", "isNextArbitratorsSame", "isNextArbitratorsSame"},
+		{"core/transaction/nexttrundposinfotransaction.go", "isNextArbitratorsSameV1", "isNextArbitratorsSameV1"},
+		{"blockchain/blockchain.go", "BlockChain.maybeAcceptBlock", "maybeAcceptBlock"},
+		{"blockchain/blockchain.go", "BlockChain.connectBestChain", "connectBestChain"},
 		{"core/transaction/registercrtransaction.go", "RegisterCRTransaction.SpecialContextCheck", "registerCRSpecialContextCheck"},
 		{"core/transaction/inactivearbitratorstransaction.go", "checkCRCArbitratorsSignatures", "checkCRCArbitratorsSignaturesTx"},
 		{"blockchain/txvalidator.go", "checkCRCArbitratorsSignatures", "checkCRCArbitratorsSignaturesBc"},
@@ -147,7 +151,7 @@ func main() {
 			f = ex.Parse(it.file)
 			files[it.file] = f
 		}
-		acc := accesses(f, it.fn, it.fn == "GetExpectedIndex" || it.fn == "BlockChain.CheckBlockSanity" || it.fn == "ReturnDepositCoinTransaction.SpecialContextCheck")
+		acc := accesses(f, it.fn, it.fn == "GetExpectedIndex" || it.fn == "BlockChain.CheckBlockSanity" || it.fn == "BlockChain.maybeAcceptBlock" || it.fn == "ReturnDepositCoinTransaction.SpecialContextCheck")
 		fmt.Printf("/-- %s : %s -/\ndef %s : List String := [\n", it.file, it.fn, it.def)
 		for i, a := range acc {
 			sep := ","
